@@ -207,6 +207,15 @@ DROPPING_ADAPTERS = {"filter", "filter_map", "skip", "take", "take_while", "skip
                      "first", "pop", "remove", "swap_remove", "drain", "dedup_by", "dedup_by_key", "unique_by", "min", "max", "min_by", "max_by", "position"}
 
 
+def _norm_sig(t):
+    """Closure parameter numbers and value-transparent calls (`.clone()`, `.to_owned()`, `.as_ref()`, `.iter()` vs `.into_iter()`) do not distinguish adapters."""
+    t = re.sub(r"\bc\d+(\.\d+)?\b", "c", t)
+    t = re.sub(r"\.(clone|to_owned|as_ref|as_deref|borrow|cloned|copied)\(\)", "", t)
+    # a local of the enclosing fn, whether it was bound by `let x = ..` (rendered `v?`) or by a pattern (`b0`, `b1`), is just "a local"
+    t = re.sub(r"\bb\d+(_\d+)?\b", "v", t).replace("v?", "v")
+    return t
+
+
 def droppers_inventory(facts, rep, rid, fn_suffixes, audited, what):
     """Audited inventory of dropping / truncating / de-duplicating sequence adapters in the given fns.  Keys use the rename-independent rendering of the adapter's
     argument, so a NEW adapter gets a new key (and is reported) while renaming locals changes nothing.  `audited`: {(fn suffix, 'method(canonical arg)'): reason}."""
@@ -222,14 +231,14 @@ def droppers_inventory(facts, rep, rid, fn_suffixes, audited, what):
             if not cal.startswith(("std::iter::", "core::iter::", "itertools::", "std::vec::", "alloc::vec::", "core::slice::", "rayon::", "std::collections::VecDeque")):
                 continue
             arg = fb.show_canon(f, x["args"][0], maxdepth=30, inline=0).replace(" ", "")[:110] if x["args"] else ""
-            sig = re.sub(r"\bc\d+(\.\d+)?\b", "c", "%s(%s)" % (x["name"], arg))
+            sig = _norm_sig("%s(%s)" % (x["name"], arg))
             k_ = seen.get(sig, 0)
             seen[sig] = k_ + 1
             n += 1
             key = "%s|%s|%d" % (f.def_, sig, k_)
             why = None
             for (fs, sg), reason in audited.items():
-                sgn = re.sub(r"\bc\d+(\.\d+)?\b", "c", sg)
+                sgn = _norm_sig(sg)
                 if f.def_.endswith(fs) and (sgn == sig or (len(sgn) >= 40 and sig.startswith(sgn.rstrip(")")))):
                     why = reason
             if why:
@@ -537,3 +546,29 @@ def _outer_local(e, scope):
             for _n, lid in fb.pat_bindings(x.get("pat")):
                 inner.add(lid)
     return None if e["id"] in inner else e["id"]
+
+
+def on_absent_edge(c, node, callee_suffix):
+    """Is `node` evaluated only when the Option / Result that comes from `callee_suffix(..)` is None / Err?  `match v { None => <node> }`,
+    `if let Some(..) = v {} else { <node> }`, `let Some(..) = v else { <node> }`, `v.unwrap_or_else(|| <node>)`, `v.or_else(|| <node>)`,
+    `v.map_or_else(|| <node>, ..)`."""
+    from vlib import q as _q
+    cur = node
+    for _hop in range(4):
+        for e, pol in controlling_tests(c, cur):
+            if e is not None and pol in ("pat:None", "pat:!Some", "pat:Err", "pat:!Ok") and _q.has_call(c.vprov(e) | c.mentions(e), callee_suffix):
+                return True
+        # leave the enclosing closure if it is the fallback argument of an Option combinator
+        clo = None
+        for p in c.parents(cur):
+            if p.get("k") == "closure":
+                clo = p
+                break
+        if clo is None:
+            return False
+        host = c.parent_of.get(id(clo))
+        if host is not None and host.get("k") == "mcall" and host.get("args") and host["args"][0] is clo and host["name"] in ("unwrap_or_else", "or_else", "map_or_else", "ok_or_else"):
+            if _q.has_call(c.vprov(host["recv"]) | c.mentions(host["recv"]), callee_suffix):
+                return True
+        cur = clo
+    return False
